@@ -201,3 +201,181 @@ Proof.
   exists (se, array_split_sizes (slice_len se) w). split; [|exact Hlen].
   unfold pool_steps_rounded, pool_steps. apply in_map_iff. exists se. split; [reflexivity|exact Hin].
 Qed.
+
+(* ---------- reader history ---------- *)
+Section ReaderHistoryP.
+  Context {St Rq : Type}.
+  Context (init : St) (next : St -> option (St * Rq)) (rewinds : St -> bool).
+
+  Lemma rd_trace_app fuel : forall h st ops,
+    rd_trace init next rewinds fuel st (h ++ ops)
+    = rd_trace init next rewinds fuel st h
+      ++ rd_trace init next rewinds fuel (rd_state init next rewinds fuel st h) ops.
+  Proof.
+    induction h as [|op h IH]; intros st ops; cbn [app rd_trace rd_state]; [reflexivity|].
+    destruct (rd_step init next rewinds fuel st op) as [st1 q] eqn:E. cbn [fst app].
+    rewrite IH. reflexivity.
+  Qed.
+End ReaderHistoryP.
+
+(* with the code's policy a pass forgets the state it starts from *)
+Lemma rd_pass_always {St Rq} (init : St) (next : St -> option (St * Rq)) fuel st :
+  rd_step init next rewinds_always fuel st RdPass = rd_nexts next fuel init.
+Proof. reflexivity. Qed.
+
+Lemma off_nexts_slices n cs fuel : forall off,
+  snd (rd_nexts (off_next n cs) fuel off) = slices_from fuel off n cs.
+Proof.
+  induction fuel as [|f IH]; intros off; cbn [rd_nexts slices_from]; [reflexivity|].
+  unfold off_next at 1. destruct (n <=? off); [reflexivity|].
+  specialize (IH (off + cs)). destruct (rd_nexts (off_next n cs) f (off + cs)) as [st2 rs].
+  cbn [snd] in *. rewrite IH. reflexivity.
+Qed.
+
+(* from ANY state (reachable or not) a complete pass requests exactly the model's slices *)
+Theorem off_pass_any_state n cs st :
+  snd (rd_step 0 (off_next n cs) rewinds_always n st RdPass) = slices n cs.
+Proof. rewrite rd_pass_always. apply off_nexts_slices. Qed.
+
+(* every pass after any history requests slices n cs *)
+Theorem history_pass_requests n cs h :
+  off_trace n cs (h ++ [RdPass]) = off_trace n cs h ++ [slices n cs].
+Proof.
+  unfold off_trace. rewrite rd_trace_app. f_equal. cbn [rd_trace].
+  pose proof (off_pass_any_state n cs (rd_state 0 (off_next n cs) rewinds_always n 0 h)) as P.
+  destruct (rd_step 0 (off_next n cs) rewinds_always n _ RdPass) as [st1 q]. cbn [snd] in P.
+  rewrite P. reflexivity.
+Qed.
+
+(* ... and so does every pass INSIDE a history, wherever it stands *)
+Theorem history_every_pass n cs : forall ops st,
+  Forall2 (fun op q => op = RdPass -> q = slices n cs) ops
+          (rd_trace 0 (off_next n cs) rewinds_always n st ops).
+Proof.
+  induction ops as [|op ops IH]; intros st; cbn [rd_trace]; [constructor|].
+  pose proof (off_pass_any_state n cs st) as P.
+  destruct (rd_step 0 (off_next n cs) rewinds_always n st op) as [st1 q] eqn:E.
+  constructor; [|apply IH]. intros ->. rewrite E in P. exact P.
+Qed.
+
+Corollary history_pass_covers n cs h : 1 <= cs ->
+  let q := last (off_trace n cs (h ++ [RdPass])) [] in
+  concat (map range q) = seq 0 n /\ Forall (fun se => 1 <= slice_len se <= cs /\ snd se <= n) q.
+Proof.
+  intros Hcs. rewrite history_pass_requests, last_last. cbv zeta.
+  split; [apply slices_cover|apply slices_bound]; exact Hcs.
+Qed.
+
+(* a complete pass leaves the reader exhausted *)
+Lemma off_nexts_final n cs : 1 <= cs -> forall fuel off, n <= off + fuel ->
+  n <= fst (rd_nexts (off_next n cs) fuel off).
+Proof.
+  intros Hcs. induction fuel as [|f IH]; intros off H; cbn [rd_nexts]; [cbn [fst]; lia|].
+  unfold off_next at 1. destruct (Nat.leb_spec n off) as [Hle|Hgt]; [cbn [fst]; exact Hle|].
+  specialize (IH (off + cs) ltac:(lia)). destruct (rd_nexts (off_next n cs) f (off + cs)) as [st2 rs].
+  cbn [fst] in *. exact IH.
+Qed.
+
+(* the policy `rewind only when exhausted` cannot be told from the code's by histories that consist of complete
+   passes only (fresh readers, get_probe, the Catalog.from_* routes): the two request the same, step by step *)
+Lemma lazy_same_from n cs : 1 <= cs -> forall ops st, (st = 0 \/ n <= st) -> Forall (fun op => op = RdPass) ops ->
+  rd_trace 0 (off_next n cs) (off_rewinds_exhausted n) n st ops
+  = rd_trace 0 (off_next n cs) rewinds_always n st ops.
+Proof.
+  intros Hcs. induction ops as [|op ops IH]; intros st Hst Hall; [reflexivity|].
+  inversion Hall as [|op' r' Hop Hr]; subst. cbn [rd_trace rd_step].
+  assert (E : rd_iter 0 (off_rewinds_exhausted n) st = 0).
+  { unfold rd_iter, off_rewinds_exhausted. destruct (Nat.leb_spec n st); [reflexivity|lia]. }
+  rewrite E. unfold rd_iter at 1, rewinds_always at 1.
+  pose proof (off_nexts_final n cs Hcs n 0 ltac:(lia)) as F.
+  destruct (rd_nexts (off_next n cs) n 0) as [st1 q]. cbn [fst] in F.
+  f_equal. apply IH; [right; exact F|exact Hr].
+Qed.
+
+Theorem lazy_same_on_complete_passes n cs ops : 1 <= cs -> Forall (fun op => op = RdPass) ops ->
+  off_trace_lazy n cs ops = off_trace n cs ops.
+Proof. intros Hcs Hall. unfold off_trace_lazy, off_trace. apply lazy_same_from; auto. Qed.
+
+Lemma slices_from_ge fuel : forall s n cs x,
+  In x (concat (map range (slices_from fuel s n cs))) -> s <= x.
+Proof.
+  induction fuel as [|f IH]; intros s n cs x H; cbn [slices_from] in H; [destruct H|].
+  destruct (n <=? s); [destruct H|]. cbn [map concat] in H. apply in_app_or in H.
+  destruct H as [H|H].
+  - unfold range in H. cbn [fst snd] in H. apply in_seq in H. lia.
+  - apply IH in H. lia.
+Qed.
+
+(* ... but it is wrong as soon as a pass was abandoned: from any partially consumed state the next pass never
+   requests the first record *)
+Theorem lazy_pass_misses_start n cs st : 0 < st -> st < n ->
+  ~ In 0 (concat (map range (snd (rd_step 0 (off_next n cs) (off_rewinds_exhausted n) n st RdPass)))).
+Proof.
+  intros H0 Hn. cbn [rd_step]. unfold rd_iter, off_rewinds_exhausted.
+  destruct (Nat.leb_spec n st); [lia|]. rewrite off_nexts_slices. intros Hin.
+  apply slices_from_ge in Hin. lia.
+Qed.
+
+(* the peek next(iter(reader)) is such a history whenever the source is longer than a chunk *)
+Theorem lazy_refuted n cs : 1 <= cs -> cs < n ->
+  exists q, off_trace_lazy n cs [RdIter; RdNext 1; RdPass] = [[]; [(0, cs)]; q]
+            /\ ~ In 0 (concat (map range q)) /\ q <> slices n cs.
+Proof.
+  intros Hcs Hn. unfold off_trace_lazy. cbn [rd_trace rd_step].
+  assert (E0 : rd_iter 0 (off_rewinds_exhausted n) 0 = 0).
+  { unfold rd_iter. destruct (off_rewinds_exhausted n 0); reflexivity. }
+  rewrite E0. cbn [rd_nexts]. unfold off_next at 1. destruct (Nat.leb_spec n 0); [lia|].
+  cbn [Nat.add]. rewrite Nat.min_l by lia.
+  pose proof (lazy_pass_misses_start n cs cs ltac:(lia) Hn) as M. cbn [rd_step] in M.
+  destruct (rd_nexts (off_next n cs) n (rd_iter 0 (off_rewinds_exhausted n) cs)) as [st2 q].
+  cbn [snd] in M. exists q. split; [reflexivity|]. split; [exact M|].
+  intros ->. apply M. rewrite slices_cover by exact Hcs. apply in_seq. lia.
+Qed.
+
+(* ---------- Parquet: the same for the row-group reader ---------- *)
+Lemma pq_next_eq {A} n cs s off (cache file : list (list A)) :
+  pq_next n cs (s, off, cache, file)
+  = if n <=? s then None else
+      let '(cache1, file1) := load_groups cs cache file in
+      let '(chunk, cache2) := extract_chunk cs cache1 in
+      let k := length file - length file1 in
+      Some ((s + cs, off + k, cache2, file1), (seq off k, chunk)).
+Proof. reflexivity. Qed.
+
+Lemma pq_nexts_model {A} n cs fuel : forall s off (cache file : list (list A)),
+  map fst (snd (rd_nexts (pq_next n cs) fuel (s, off, cache, file))) = parquet_reqs fuel s n cs off cache file /\
+  map snd (snd (rd_nexts (pq_next n cs) fuel (s, off, cache, file))) = parquet_from fuel s n cs cache file.
+Proof.
+  induction fuel as [|f IH]; intros s off cache file; cbn [rd_nexts parquet_reqs parquet_from];
+    [split; reflexivity|].
+  rewrite pq_next_eq. destruct (n <=? s); [split; reflexivity|].
+  destruct (load_groups cs cache file) as [c1 f1]. destruct (extract_chunk cs c1) as [chunk c2].
+  cbv beta iota zeta.
+  match goal with |- context [let '(_, _) := ?p in _] =>
+    pose proof (IH (s + cs) (off + (length file - length f1)) c2 f1
+                : map fst (snd p) = _ /\ map snd (snd p) = _) as I;
+    destruct p as [st2 rs]
+  end.
+  cbn [snd] in I. destruct I as [I1 I2]. cbn [snd map fst]. rewrite I1, I2. split; reflexivity.
+Qed.
+
+(* from any state of cursor and cache a complete pass requests the row groups and delivers the chunks of a
+   fresh reader *)
+Theorem pq_pass_any_state {A} cs (groups : list (list A)) (st : pq_state A) :
+  let n := length (concat groups) in
+  let q := snd (rd_step (pq_init groups) (pq_next n cs) rewinds_always n st RdPass) in
+  map fst q = parquet_request_trace cs groups /\ map snd q = parquet_chunks cs groups.
+Proof. cbv zeta. rewrite rd_pass_always. apply pq_nexts_model. Qed.
+
+Theorem pq_history_every_pass {A} cs (groups : list (list A)) : forall ops st,
+  let n := length (concat groups) in
+  Forall2 (fun op q => op = RdPass ->
+             map fst q = parquet_request_trace cs groups /\ map snd q = chunks cs (concat groups)) ops
+          (rd_trace (pq_init groups) (pq_next n cs) rewinds_always n st ops).
+Proof.
+  cbv zeta. induction ops as [|op ops IH]; intros st; cbn [rd_trace]; [constructor|].
+  pose proof (pq_pass_any_state cs groups st) as P. cbv zeta in P.
+  destruct (rd_step (pq_init groups) (pq_next (length (concat groups)) cs) rewinds_always _ st op) as [st1 q] eqn:E.
+  constructor; [|apply IH]. intros ->. rewrite E in P. cbn [snd] in P.
+  rewrite <- parquet_chunks_eq. exact P.
+Qed.
